@@ -183,7 +183,7 @@ theorem n_splits_eq_length {k n wl step fh iw sww} (v : Valid k n wl step fh iw 
 at the cutoff `n − max(fh) − 1`, test = cutoff + fh; the reported cutoff is that one -/
 theorem single_window_fold (n : Int) (fh : List Int) (wl : Option Int)
     (hs : fh.Pairwise (· < ·)) (hne : fh ≠ []) (hpos : ∀ h ∈ fh, 0 < h)
-    (hwl : ∀ w, wl = some w → 1 ≤ w) (hfit : fhMax fh ≤ n) :
+    (hwl : ∀ w, wl = some w → 1 ≤ w ∧ w + fhMax fh ≤ n) (hfit : fhMax fh ≤ n) :
     singleSplit n fh wl =
       .ok [(arange (match wl with | none => 0 | some w => max (n - fhMax fh - w) 0) (n - fhMax fh),
             fh.map (n - fhMax fh - 1 + ·))] ∧
@@ -201,11 +201,22 @@ theorem single_window_fold (n : Int) (fh : List Int) (wl : Option Int)
       simp
     | some w =>
       have hw : ¬ w < 1 := by have := hwl w rfl; omega
-      simp only [hw, ↓reduceIte, bind, Except.bind, pure, Except.pure, Except.map, filterFolds,
+      have hw2 : ¬ w + fhMax fh > n := by have := hwl w rfl; omega
+      simp only [hw, hw2, ↓reduceIte, bind, Except.bind, pure, Except.pure, Except.map, filterFolds,
         List.map_cons, List.map_nil, Lem.checkFh_sorted fh hs hne, hend, e]
       rw [Lem.nonneg_arange, Lem.nonneg_test fh hpos _ (by omega)]
   · unfold singleCutoffs
     simp only [bind, Except.bind, pure, Except.pure, Lem.checkFh_sorted fh hs hne, hend, e2]
+
+/-- a window that does not fit the series is rejected (repaired code; it used to be clipped) -/
+theorem single_window_rejects_too_long (n w : Int) (fh : List Int)
+    (hs : fh.Pairwise (· < ·)) (hne : fh ≠ []) (hbad : w + fhMax fh > n) :
+    singleSplit n fh (some w) = .error .value := by
+  unfold singleSplit singleSplitRaw
+  by_cases hw : w < 1
+  · simp [hw, bind, Except.bind, throw, throwThe, MonadExceptOf.throw, Except.map]
+  · simp [hw, hbad, bind, Except.bind, pure, Except.pure, throw, throwThe, MonadExceptOf.throw, Except.map,
+      Lem.checkFh_sorted fh hs hne]
 
 /-- that cutoff is the last feasible one -/
 theorem single_window_is_last_feasible (n : Int) (fh : List Int) :
